@@ -911,6 +911,17 @@ class Gen:
                     rows = {"cols": cols, "index": list(range(nf + nr))}
                     tpos = [i for i, o in enumerate(order) if o == "t"]
                 spec = self.shape_new_frame(rows, fm)
+                # a coincidence real prediction code produces all the time: another batch of the SAME length with
+                # the SAME index labels (reset_index / freshly built frames) but other rows
+                prev = [o for o in ops if o["op"] == "eval" and o.get("kind") == "rows" and o["root"] == root
+                        and o["part"] == part and "tpos" not in o and o["frame"] in self.frames]
+                if tpos is None and prev and r.random() < 0.25:
+                    p = r.choice(prev)
+                    pool = F.complete_rows(train_spec, fm["used"])
+                    if pool:
+                        idx = [r.choice(pool) for _ in p["idx"]]
+                        spec = self.shape_new_frame(F.take_rows(train_spec, idx), fm)
+                        spec["index"] = list(self.frames[p["frame"]]["index"])
                 fid = self.new_frame_id("N")
                 self.frames[fid] = spec
                 op.update({"frame": fid, "kind": "rows", "idx": idx})
